@@ -206,6 +206,35 @@ fn stream(sink: &mut Sink, o: &Opts) {
         }
         sink.emit(stream_event(&src, &splits));
     }
+    // F-cut: a line cut at every byte position, followed by well-formed lines: only the cut line
+    // may turn into an error
+    let mut good: Vec<Vec<u8>> = vec![];
+    for f in &o.files {
+        let src = std::fs::read(f).expect("corpus file");
+        let ls = lines_with_terminators(&src);
+        for _ in 0..4 {
+            good.push(ls[rng.below(ls.len())].to_vec());
+        }
+    }
+    for l in ["a.B -> a:\n", "    1:2:void x.Y.m(int,long):3:4 -> n\n", "    int f -> g\n", "# {\"id\":\"sourceFile\",\"fileName\":\"F.kt\"}\n", "# k: v\n", "    void <init>() -> <init>\n"] {
+        good.push(l.as_bytes().to_vec());
+    }
+    let ngood = good.len();
+    for g in 0..ngood {
+        let line = good[g].clone();
+        let body = line.len().saturating_sub(1);
+        for cut in 0..body {
+            let mut src = good[(g + 1) % ngood].clone();
+            let a_len = src.len();
+            src.extend_from_slice(&line[..cut]);
+            src.push(b'\n');
+            let split = src.len();
+            src.extend_from_slice(&good[(g + 2) % ngood]);
+            src.extend_from_slice(&good[(g + 3) % ngood]);
+            let _ = a_len;
+            sink.emit(stream_event(&src, &[split]));
+        }
+    }
     for f in &o.files {
         let src = std::fs::read(f).expect("corpus file");
         for variant in 0..3 {
